@@ -371,6 +371,20 @@ def run_meta(payload) -> Dict[str, Any]:
                 if sweep:
                     SymbolGraph().remove_dead_instances()
 
+        # garbage that one of the assertion objects was related TO: cs[j] was a sub-organisation of a company that is gone
+        # (collected, node not swept) while the graph edge cs[j] -> gone is still there; route "reassign": the field was
+        # re-assigned before the drop, route "direct": the relation was recorded directly
+        if dead_sources is not None and tag == "a":
+            from krrood.ontomatic.property_descriptor.property_descriptor_relation import PropertyDescriptorRelation
+            for k, (j, route) in enumerate(payload.get("dead_targets", ())):
+                gone = Company(name=f"{tag}gone{k}")
+                if route == "reassign":
+                    cs[j % nc_].sub_organization_of = [gone]
+                    cs[j % nc_].sub_organization_of = []
+                else:
+                    PropertyDescriptorRelation(cs[j % nc_], gone, Company.sub_organization_of.wrapped_field).add_to_graph()
+                del gone
+                gc.collect()
         log = []
         for pos, (kind, i, j) in enumerate(acts):
             garbage(pos)
@@ -1335,7 +1349,7 @@ def replay_findings(rep: Report, prop: str, model_ok: bool, accept_all: Dict[str
 
 ACCEPT = {"K_clear": "C13-d"}
 TRUSTED = [
-    "source pins pins/registry.json (33 methods mirrored by the hand model but not translated: Variable domain plumbing, HashedIterable / "
+    "source pins pins/registry.json (35 methods mirrored by the hand model but not translated: Variable domain plumbing, HashedIterable / "
     "HashedValue identity, let / entity / an, SymbolicExpression / RWXNode registration, WrappedInstance.__eq__/__hash__)",
     "translator/t_registry.py (fail-closed statement-idiom translator: symbol_graph.py, utils.recursive_subclasses, predicate.Symbol.__new__, "
     "entity let-domain, hashed_data.__iter__, symbolic evaluate, singleton -> Gen/Registry.v) and its idiom table Onto/RegistryIdioms.v",
